@@ -71,7 +71,14 @@ func c03Gen(t *rapid.T) interface{} {
 			c.Corpus.Synth = append(c.Corpus.Synth, d)
 		}
 	}
-	switch lib.Weighted(t, []int{50, 30, 20}, "inputKind") {
+	inputKind := lib.Weighted(t, []int{50, 30, 20}, "inputKind")
+	if c.Thr < 0.3 && !c.Corpus.Full {
+		// with q = 1 every word is a q-gram: candidate search is quadratic in the text sizes (a cost, not a
+		// well-formedness, question; one such case on a 1500-word input takes 90 s), so very low thresholds are
+		// combined with short inputs and short documents only
+		inputKind = 1
+	}
+	switch inputKind {
 	case 0:
 		c.In = genRecipe(t, c.Thr)
 	case 1:
@@ -82,7 +89,23 @@ func c03Gen(t *rapid.T) interface{} {
 		c.In = r
 	}
 	if !c.Corpus.Full && len(c.Corpus.Synth) == 0 {
-		c.Corpus = smallCorpusAround(t, c.In.docs())
+		if c.Thr < 0.3 {
+			// short real documents only
+			var short []int
+			for i, f := range assets() {
+				if len(f.Content) < 1500 {
+					short = append(short, i)
+				}
+			}
+			n := lib.IntN(t, 1, 6, "nshort")
+			for i := 0; i < n; i++ {
+				c.Corpus.Docs = append(c.Corpus.Docs, short[lib.IntN(t, 0, len(short)-1, "shortDoc")])
+			}
+			// and make them matchable: the input contains one of them, lightly edited
+			c.In.Segs = append(c.In.Segs, seg{Kind: "doc", Doc: c.Corpus.Docs[0], Edits: genEdits(t, 100, 300)})
+		} else {
+			c.Corpus = smallCorpusAround(t, c.In.docs())
+		}
 	} else if len(c.Corpus.Synth) > 0 && lib.Bool(t, "useSynthAsInput") {
 		// make the tiny corpus matchable: the input contains the synthetic documents themselves
 		for _, d := range c.Corpus.Synth {
